@@ -29,7 +29,7 @@ RULE = ("case = (state, method, mode subset and order, arguments).  States: rand
 TRUSTED_BASE = [
     "Coq 8.16.1 kernel; vm_compute evaluates the model on generated cases (PrimFloat for Gaussian quantities, Z for Fock tensors)",
     "hand-written model coq/C16/Model.v of BaseGaussianState.{reduced_gaussian,displacement,mean_photon,quad_expectation,"
-    "parity_expectation}, BaseFockState.{all_fock_probs,fock_prob,trace,reduced_dm,mean_photon,diagonal_expectation} (mixed "
+    "parity_expectation}, BaseBosonicState.quad_expectation (mixture moments), BaseFockState.{all_fock_probs,fock_prob,trace,reduced_dm,mean_photon,diagonal_expectation} (mixed "
     "representation), FockBackend.state axis permutation, reduced_bosonic index selection, post_processing sample statistics; "
     "tied by float / exact-integer correspondence on generated inputs including malformed mode arguments",
     "numpy / scipy / thewalrus (Fock conversions, Wigner functions, determinant/inverse) are observed, not modelled: covered by the "
@@ -43,7 +43,7 @@ ASSUMPTIONS = [
 MANIFEST_TEXT = (
     "proof (partial). Full theorems (unbounded in mode count, mode lists, cutoff, tensors; scalars any field): "
     "C16_gauss_subset_order, C16_gauss_unsorted_rejected, C16_gauss_displacement_order, C16_gauss_photon, C16_gauss_quad_photon, "
-    "C16_fock_prob_all_probs, C16_fock_trace, C16_fock_marginals, C16_fock_mean_photon_marginal, C16_fock_reduced_labels_single, C16_gauss_parity_subset, C16_gauss_parity_order (model of parity_expectation after "
+    "C16_fock_prob_all_probs, C16_fock_trace, C16_bosonic_quad_total_variance, C16_fock_marginals, C16_fock_mean_photon_marginal, C16_fock_reduced_labels_single, C16_gauss_parity_subset, C16_gauss_parity_order (model of parity_expectation after "
     "fix 5603fbf). Stated but not proved in Coq "
     "(C16_fock_reduced_labels_statement for >= 2 kept modes, C16_fock_parity_statement): validated each run by exact "
     "integer-tensor correspondence and captured einsum subscripts. Wigner functions, thewalrus Fock conversions, bosonic "
@@ -1536,6 +1536,260 @@ def search_fock_family(ctx):
                     ctx.counterexample(r[0], r[1], {"check": "fock-query", "spec": spec, "D": D, "variant": variant, "q": q})
 
 
+# ---------------- family 4: bosonic multi-component states ------------------------------------
+# Cat states (complex and real representation, several amplitudes / parities), GKP states, bosonic
+# Fock states, optionally followed by R / S / BS / loss on 1-2 modes.  Every observable the bosonic
+# state object offers is compared with (a) the Fock backend on the same program (cutoff from the
+# energy, tolerance from the truncated trace) and (b) the moments of the state's own marginal() /
+# wigner() (numerical integration), plus Wigner-function identities for parity and fidelities.
+
+def gen_bosonic_spec(rng, n, lossy):
+    kind = rng.choice(["cat", "cat", "catreal", "gkp", "fock", "cat-p"])
+    small = lossy and n == 2
+    cmds = []
+    if kind in ("cat", "cat-p", "catreal"):
+        a = round(rng.uniform(0.5, 1.0 if small else 1.5), 2)
+        phi = round(rng.uniform(-3, 3), 2) if rng.random() < 0.7 else 0.0
+        pp = rng.choice([0, 1]) if kind != "cat-p" else rng.choice([0.5, 0.25, 1.3])
+        if kind == "catreal":
+            cmds.append(["Catstate", [a, phi, rng.choice([0, 1]), "real", 1e-12, 2], [0], False])
+        else:
+            cmds.append(["Catstate", [a, phi, pp], [0], False])
+    elif kind == "gkp":
+        eps = round(rng.uniform(0.45 if small else 0.32, 0.6), 2)
+        cmds.append(["GKP", [[round(rng.uniform(0, 3.1), 2), round(rng.uniform(0, 6.2), 2)], eps], [0], False])
+    else:
+        cmds.append(["Fock", [rng.choice([1, 2])], [0], False])
+    if n == 2:
+        r = rng.random()
+        if r < 0.3:
+            cmds.append(["Catstate", [round(rng.uniform(0.4, 0.9), 2), round(rng.uniform(-3, 3), 2), rng.choice([0, 1])], [1], False])
+        elif r < 0.7:
+            cmds.append(["Sgate", [round(rng.uniform(0.05, 0.25), 3), round(rng.uniform(-3, 3), 2)], [1], False])
+            cmds.append(["Dgate", [round(rng.uniform(0.05, 0.4), 3), round(rng.uniform(-3, 3), 2)], [1], False])
+    if rng.random() < 0.6:
+        cmds.append(["Rgate", [round(rng.uniform(-3, 3), 2)], [0], False])
+    if rng.random() < 0.4:
+        cmds.append(["Sgate", [round(rng.uniform(0.05, 0.2), 3), round(rng.uniform(-3, 3), 2)], [0], False])
+    if n == 2:
+        a, b = rng.sample(range(2), 2)
+        cmds.append(["BSgate", [round(rng.uniform(0.3, 1.3), 3), round(rng.uniform(-2, 2), 2)], [a, b], False])
+    if lossy:
+        cmds.append(["LossChannel", [round(rng.uniform(0.6, 0.95), 2)], [rng.randrange(n)], False])
+    return {"n": n, "cmds": cmds, "kind": kind}
+
+
+def _bosonic_cutoff(sb, n, lossy):
+    """Fock cutoff from the energy of the bosonic state"""
+    need = 0
+    for k in range(n):
+        m, v = [float(np.real(x)) for x in sb.mean_photon(k)]
+        need = max(need, m + 7 * np.sqrt(max(v, 0.0)) + 10)
+    cap = {1: 48, 2: 26}[n] if not lossy else {1: 40, 2: 15}[n]
+    return int(min(cap, max(12, np.ceil(need))))
+
+
+def _bos_extent(sb, k):
+    w, mus, covs = sb.reduced_bosonic([k])
+    return float(np.max(np.abs(np.real(mus))) + 9 * np.sqrt(np.max(np.abs(np.real(covs)))) + 1)
+
+
+def _trapz(y, x):
+    return np.trapz(y, x) if hasattr(np, "trapz") else np.trapezoid(y, x)
+
+
+def gen_bosonic_queries(rng, n):
+    qs = []
+    for k in range(n):
+        for phi in (0.0, math.pi / 2, round(rng.uniform(-3, 3), 2)):
+            qs.append({"m": "quad_expectation", "mode": k, "phi": phi})
+            qs.append({"m": "marginal_moments", "mode": k, "phi": phi})
+        qs.append({"m": "mean_photon", "mode": k})
+        qs.append({"m": "wigner_moments", "mode": k, "phi": round(rng.uniform(-3, 3), 2)})
+        qs.append({"m": "parity_expectation", "modes": [k]})
+        qs.append({"m": "reduced_dm", "modes": [k]})
+        qs.append({"m": "displacement", "modes": [k]})
+        qs.append({"m": "wigner", "mode": k, "x": [round(-2.4 + 1.2 * i, 3) for i in range(5)], "p": [round(-1.8 + 1.2 * i, 3) for i in range(4)]})
+    if n == 2:
+        qs.append({"m": "parity_expectation", "modes": [0, 1]})
+        qs.append({"m": "parity_expectation", "modes": [1, 0]})
+        qs.append({"m": "displacement", "modes": [1, 0]})
+    qs.append({"m": "fidelity_vacuum"})
+    for _ in range(2):
+        qs.append({"m": "fidelity_coherent", "alpha": [[round(rng.uniform(-1.2, 1.2), 2), round(rng.uniform(-1.2, 1.2), 2)] for _ in range(n)]})
+    for _ in range(3):
+        qs.append({"m": "fock_prob", "n": [rng.choice([0, 1, 2, 3, 4]) for _ in range(n)]})
+    qs.append({"m": "purity"})
+    return qs
+
+
+def eval_bosonic_query(spec, q, lossy, cache=None):
+    """(signature, text) if the property's predicate fails for query q on the bosonic state of spec"""
+    cache = cache if cache is not None else {}
+    n = spec["n"]
+    hb = float(sf.hbar)
+    if "bosonic" not in cache:
+        cache["bosonic"] = run_spec(spec, "bosonic")
+    sb = cache["bosonic"][1]
+    if "fock" not in cache:
+        c = _bosonic_cutoff(sb, n, lossy)
+        cache["cutoff"] = c
+        cache["fock"] = run_spec(spec, "fock", c)
+        # truncation indicators: lost trace, and population in the top four levels of any mode (preparations that
+        # normalise inside the truncated space lose no trace)
+        edge = max(float(np.sum(np.real(np.diag(cache["fock"][1].reduced_dm([k])))[c - 4:])) for k in range(n))
+        cache["leak"] = min(1e-4, max(0.0, 1.0 - float(cache["fock"][1].trace())) + max(0.0, edge))
+    sk, c, leak = cache["fock"][1], cache["cutoff"], cache["leak"]
+    m = q["m"]
+    approx = any(cm[0] == "Fock" for cm in spec["cmds"])      # bosonic Fock states are a documented approximation (r = 0.05)
+    # GKP states are built by different finite-energy approximations on the two backends (truncated sums of Gaussians
+    # vs. Fock coefficients valid for small epsilon); measured relative differences up to 7e-4: looser base
+    gkp = any(cm[0] == "GKP" for cm in spec["cmds"])
+    base = 3e-2 if approx else (2e-3 if gkp else (2e-5 if any(cm[0] == "Catstate" and len(cm[1]) > 3 for cm in spec["cmds"]) else 2e-6))
+    # tolerance from the truncated trace: moments can lose up to ~ leak * cutoff^2
+    tol_m = base + 40 * leak * c * c
+    tol_p = base + 20 * leak
+    rc = min(c, 8)
+    cplx = bool(np.max(np.abs(np.imag(np.asarray(sb.means(), dtype=complex)))) > 1e-12)
+
+    def bad(sig, txt):
+        return ("bosonic.%s:%s" % (m, sig), "bosonic state of %s: %s" % (spec["kind"], txt))
+    try:
+        if m == "quad_expectation":
+            got = [complex(x) for x in sb.quad_expectation(q["mode"], q["phi"])]
+            want = sk.quad_expectation(q["mode"], q["phi"])
+            if abs(got[0] - want[0]) > tol_m * max(1, abs(want[0])):
+                return bad("mean-vs-fock", "quad_expectation(%d, %s) mean %s, Fock backend %s" % (q["mode"], q["phi"], got[0], want[0]))
+            if abs(got[1] - want[1]) > tol_m * max(1, abs(want[1])):
+                return bad("variance-vs-fock", "quad_expectation(%d, %s) variance %s, Fock backend %.8g" % (q["mode"], q["phi"], got[1], want[1]))
+        elif m == "marginal_moments":
+            L = _bos_extent(sb, q["mode"])
+            xs = np.linspace(-L, L, 4001)
+            mg = np.real(np.asarray(sb.marginal(q["mode"], xs, q["phi"]), dtype=complex))
+            nrm = _trapz(mg, xs)
+            mean = _trapz(xs * mg, xs)
+            var = _trapz(xs * xs * mg, xs) - mean ** 2
+            got = [complex(x) for x in sb.quad_expectation(q["mode"], q["phi"])]
+            t = 2e-6 * (1 + L * L)
+            if abs(nrm - 1) > t:
+                return bad("marginal-norm", "marginal(%d, phi=%s) integrates to %.9g" % (q["mode"], q["phi"], nrm))
+            if abs(got[0] - mean) > t or abs(got[1] - var) > t:
+                return bad("vs-marginal", "quad_expectation(%d, %s) = (%s, %s) but the moments of the state's own marginal() are (%.8g, %.8g)" % (
+                    q["mode"], q["phi"], got[0], got[1], mean, var))
+        elif m == "wigner_moments":
+            L = _bos_extent(sb, q["mode"])
+            xs = np.linspace(-L, L, 241)
+            W = np.real(np.asarray(sb.wigner(q["mode"], xs, xs), dtype=complex))     # W[ip, ix]
+            X, P = np.meshgrid(xs, xs)
+            integ = lambda f: _trapz(_trapz(f * W, xs, ) if False else _trapz(f * W, xs), xs)
+            nrm = integ(np.ones_like(W))
+            cph, sph = np.cos(q["phi"]), np.sin(q["phi"])
+            Q = cph * X + sph * P
+            mean = integ(Q)
+            var = integ(Q * Q) - mean ** 2
+            r = (X * X + P * P) / (2 * hb)
+            nbar = integ(r) - 0.5
+            nvar = integ((r - 0.5) ** 2 - 0.25) - nbar ** 2
+            t = 5e-6 * (1 + L ** 4)
+            gq = [complex(x) for x in sb.quad_expectation(q["mode"], q["phi"])]
+            gn = [complex(x) for x in sb.mean_photon(q["mode"])]
+            if abs(nrm - 1) > t:
+                return bad("wigner-norm", "wigner(%d) integrates to %.9g" % (q["mode"], nrm))
+            if abs(gq[0] - mean) > t or abs(gq[1] - var) > t:
+                return bad("quad-vs-wigner", "quad_expectation(%d, %s) = (%s, %s) but the moments of the state's own wigner() are (%.8g, %.8g)" % (
+                    q["mode"], q["phi"], gq[0], gq[1], mean, var))
+            if abs(gn[0] - nbar) > t or abs(gn[1] - nvar) > t:
+                return bad("photon-vs-wigner", "mean_photon(%d) = (%s, %s) but the Wigner function gives (%.8g, %.8g)" % (q["mode"], gn[0], gn[1], nbar, nvar))
+            w0 = complex(np.asarray(sb.wigner(q["mode"], np.array([0.0]), np.array([0.0]))).reshape(-1)[0])
+            par = complex(sb.parity_expectation([q["mode"]]))
+            if abs(par - np.pi * hb * w0) > 1e-8:
+                return bad("parity-vs-wigner", "parity_expectation([%d]) = %s but pi*hbar*W(0,0) = %s" % (q["mode"], par, np.pi * hb * w0))
+            if n == 1:
+                al = complex(0.3, -0.45)
+                mu_a = np.array([al.real, al.imag]) * np.sqrt(2 * hb)
+                Wa = np.exp(-((X - mu_a[0]) ** 2 + (P - mu_a[1]) ** 2) / hb) / (np.pi * hb)
+                ov = 2 * np.pi * hb * _trapz(_trapz(W * Wa, xs), xs)
+                fc = complex(sb.fidelity_coherent(np.array([al])))
+                if abs(fc - ov) > t:
+                    return bad("fidelity-vs-wigner", "fidelity_coherent([%s]) = %s but 2 pi hbar int W W_alpha = %.9g" % (al, fc, ov))
+        elif m == "mean_photon":
+            got = [complex(x) for x in sb.mean_photon(q["mode"])]
+            want = sk.mean_photon(q["mode"])
+            if abs(got[0] - want[0]) > tol_m * max(1, abs(want[0])) or abs(got[1] - want[1]) > tol_m * max(1, abs(want[1])) * 2:
+                return bad("vs-fock", "mean_photon(%d) = (%s, %s), Fock backend (%.8g, %.8g)" % (q["mode"], got[0], got[1], want[0], want[1]))
+        elif m == "parity_expectation":
+            got = complex(sb.parity_expectation(list(q["modes"])))
+            want = sk.parity_expectation(list(q["modes"]))
+            if abs(got - want) > tol_p:
+                return bad("vs-fock", "parity_expectation(%s) = %s, Fock backend %.8g" % (q["modes"], got, want))
+        elif m == "fidelity_vacuum":
+            got, want = complex(sb.fidelity_vacuum()), sk.fidelity_vacuum()
+            if abs(got - want) > tol_p:
+                return bad("vs-fock", "fidelity_vacuum() = %s, Fock backend %.8g" % (got, want))
+        elif m == "fidelity_coherent":
+            al = np.array([complex(a, b) for a, b in q["alpha"]])
+            got, want = complex(sb.fidelity_coherent(al)), sk.fidelity_coherent(al)
+            if abs(got - want) > tol_p:
+                return bad("vs-fock", "fidelity_coherent(%s) = %s, Fock backend %.8g" % (list(al), got, want))
+        elif m == "fock_prob":
+            got, want = complex(sb.fock_prob(list(q["n"]), cutoff=c)), sk.fock_prob(list(q["n"]))
+            if abs(got - want) > tol_p:
+                if cplx:
+                    return bad("complex-means", "fock_prob(%s) = %s, Fock backend %.8g (component means are complex-valued: the interference terms are lost)" % (q["n"], got, want))
+                return bad("vs-fock", "fock_prob(%s) = %s, Fock backend %.8g" % (q["n"], got, want))
+        elif m == "reduced_dm":
+            got = np.asarray(sb.reduced_dm(list(q["modes"]), cutoff=rc))
+            want = np.asarray(sk.reduced_dm(list(q["modes"])))[:rc, :rc]
+            if got.shape != want.shape or np.max(np.abs(got - want)) > tol_p:
+                if cplx and got.shape == want.shape:
+                    return bad("complex-means", "reduced_dm(%s) differs from the Fock backend by %.3g (component means are complex-valued: the interference terms are lost)" % (q["modes"], np.max(np.abs(got - want))))
+                return bad("vs-fock", "reduced_dm(%s) differs from the Fock backend by %.3g" % (q["modes"], np.max(np.abs(got - want)) if got.shape == want.shape else -1))
+        elif m == "displacement":
+            got = np.asarray(sb.displacement(list(q["modes"])))
+            want = np.array([(sk.quad_expectation(k, 0.0)[0] + 1j * sk.quad_expectation(k, math.pi / 2)[0]) / np.sqrt(2 * hb) for k in q["modes"]])
+            if np.max(np.abs(got - want)) > tol_m:
+                return bad("vs-fock", "displacement(%s) = %s, Fock backend %s" % (q["modes"], got, want))
+        elif m == "wigner":
+            got = np.real(np.asarray(sb.wigner(q["mode"], np.array(q["x"]), np.array(q["p"])), dtype=complex))
+            want = sk.wigner(q["mode"], np.array(q["x"]), np.array(q["p"]))
+            if got.shape != want.shape or np.max(np.abs(got - want)) > tol_p + 5e-6:
+                return bad("vs-fock", "wigner(%d) differs from the Fock backend by %.3g" % (q["mode"], np.max(np.abs(got - want)) if got.shape == want.shape else -1))
+        elif m == "purity":
+            got = complex(sb.purity())
+            rho = sk.dm()
+            k2 = list(range(0, 2 * n, 2)) + list(range(1, 2 * n, 2))
+            M = rho.transpose(k2).reshape(c ** n, c ** n)
+            want = float(np.real(np.trace(M @ M)))
+            if abs(got - want) > tol_p + 1e-6:
+                return bad("vs-fock", "purity() = %s, Fock backend tr(rho^2) = %.8g" % (got, want))
+    except NotImplementedError:
+        return None
+    except Exception as e:  # noqa: BLE001
+        return ("bosonic.%s:raises:%s" % (m, type(e).__name__), "bosonic state of %s: %s(%s) raised %r" % (spec["kind"], m, _qargs(q), e))
+    return None
+
+
+def search_bosonic_family(ctx):
+    rng = ctx.rng
+    for ci in range(ctx.budget(8, 60)):
+        n = 1 if ci % 2 == 0 else 2
+        lossy = rng.random() < 0.3
+        spec = gen_bosonic_spec(rng, n, lossy)
+        if ci < 6:    # every preparation kind appears in the quick tier
+            while spec["kind"] != ["cat", "gkp", "catreal", "cat-p", "fock", "cat"][ci]:
+                spec = gen_bosonic_spec(rng, n, lossy)
+        qs = gen_bosonic_queries(rng, n)
+        cache = {}
+        for q in qs:
+            r = eval_bosonic_query(spec, q, lossy, cache)
+            ctx.case({"family": "bosonic-multicomponent", "kind": spec["kind"], "n": n, "lossy": lossy, "weights": int(cache["bosonic"][1].num_weights),
+                      "cutoff": cache.get("cutoff"), "q": {k: v for k, v in q.items() if k in ("m", "modes", "mode", "phi", "n")}},
+                     nontrivial=int(cache["bosonic"][1].num_weights) > 1 and (n == 2 or q["m"] in ("quad_expectation", "marginal_moments", "wigner_moments", "mean_photon")),
+                     bucket="search:bosonic-%s:%s" % (spec["kind"], q["m"]))
+            if r:
+                ctx.counterexample(r[0], r[1], {"check": "bosonic-query", "spec": spec, "q": q, "lossy": lossy})
+
+
 def replay_corpus(ctx):
     """known findings / minimised past failures run first"""
     for path in sorted(glob.glob(os.path.join(coq.VERIF, "corpus", "C16-*.json"))):
@@ -1557,6 +1811,11 @@ def _eval_replay(d):
         return eval_circuit_fidelity(d["spec"], d["rep"], d["modes"])
     if chk == "fock-query":
         return eval_fock_query(d["spec"], d["D"], d["variant"], d["q"])
+    if chk == "bosonic-mixture":
+        bad = _bosonic_mixture_predicate(d["case"])
+        return ("bosonic.quad_expectation:mixture", "BaseBosonicState." + bad) if bad else None
+    if chk == "bosonic-query":
+        return eval_bosonic_query(d["spec"], d["q"], d["lossy"])
     if chk == "gauss-call":
         bad = _gauss_predicate(d["case"])
         return ("gauss.%s:%s" % (d["case"]["method"], d["case"]["kind"]), bad) if bad else None
@@ -1589,17 +1848,79 @@ def _eval_replay(d):
     return None
 
 
+# ======================================================================================
+# correspondence 5: BaseBosonicState.quad_expectation on synthetic real-valued mixtures (floats)
+
+def corr_bosonic_quad(ctx):
+    from strawberryfields.backends.states import BaseBosonicState
+    rng = ctx.rng
+    cases = []
+    for _ in range(ctx.budget(60, 600)):
+        n = rng.choice([1, 1, 2, 3])
+        nw = rng.randint(1, 4)
+        w = [round(rng.uniform(-0.5, 1.5), 3) for _ in range(nw)]
+        w[-1] = round(1.0 - sum(w[:-1]), 6)
+        means = [[round(rng.uniform(-2.5, 2.5), 3) for _ in range(2 * n)] for _ in range(nw)]
+        covs = []
+        for _ in range(nw):
+            a = np.array([[round(rng.uniform(-1, 1), 3) for _ in range(2 * n)] for _ in range(2 * n)])
+            covs.append((a @ a.T + 0.5 * np.eye(2 * n)).tolist())
+        cases.append({"n": n, "w": w, "means": means, "covs": covs, "mode": rng.randrange(n), "phi": rng.choice([0.0, math.pi / 2, 0.4, -1.3, 2.2])})
+    impl, lines = [], ["From Coq Require Import List ZArith PrimFloat.", "Import ListNotations.", "From SFV Require Import C16.Model C16.Exec.", "Open Scope nat_scope."]
+    for c in cases:
+        st = BaseBosonicState((np.array(c["means"]), np.array(c["covs"]), np.array(c["w"])), c["n"], len(c["w"]))
+        impl.append([float(np.real(x)) for x in st.quad_expectation(c["mode"], c["phi"])])
+        comps = coq.coq_list(["(%s, %s, %s)" % (cfl(wi), cvec(mi), cmat(vi)) for wi, mi, vi in zip(st.weights(), st.means(), st.covs())])
+        lines.append("Eval vm_compute in (f_bosonic_quad %s %s %d %s)." % (cfl(np.cos(c["phi"])), cfl(np.sin(c["phi"])), c["mode"], comps))
+    ok, vals, raw = ctx.coq_eval("cases_bosonic_quad", "\n".join(lines))
+    if not ok or len(vals) != len(cases):
+        ctx.obligation("correspondence:bosonic_quad", False, raw[-2000:])
+        return
+    ctx.traces += len(cases)
+    for c, iv, mv in zip(cases, impl, vals):
+        spread = len(c["w"]) > 1
+        ctx.case({"rep": "bosonic", "method": "quad_expectation", "n": c["n"], "weights": len(c["w"]), "mode": c["mode"], "phi": c["phi"]},
+                 nontrivial=spread and (c["n"] >= 2 and c["mode"] > 0 or c["phi"] != 0.0), bucket="corr-bosonic-quad:w%d" % len(c["w"]))
+        if _close(iv, list(mv), 1e-9):
+            continue
+        # property predicate: moments of the state's own marginal()
+        data = {"check": "bosonic-mixture", "case": c, "impl": iv, "model": list(mv)}
+        bad = _bosonic_mixture_predicate(c)
+        if bad:
+            ctx.counterexample("bosonic.quad_expectation:mixture", "BaseBosonicState." + bad, data)
+        else:
+            ctx.disagreement("corr:bosonic.quad_expectation", "model %s vs implementation %s for quad_expectation(%d, %s) of a %d-component mixture" % (
+                list(mv), iv, c["mode"], c["phi"], len(c["w"])), data)
+
+
+def _bosonic_mixture_predicate(c):
+    from strawberryfields.backends.states import BaseBosonicState
+    st = BaseBosonicState((np.array(c["means"]), np.array(c["covs"]), np.array(c["w"])), c["n"], len(c["w"]))
+    L = _bos_extent(st, c["mode"])
+    xs = np.linspace(-L, L, 6001)
+    mg = np.real(np.asarray(st.marginal(c["mode"], xs, c["phi"]), dtype=complex))
+    mean = _trapz(xs * mg, xs)
+    var = _trapz(xs * xs * mg, xs) - mean ** 2
+    got = [float(np.real(x)) for x in st.quad_expectation(c["mode"], c["phi"])]
+    t = 2e-6 * (1 + L * L)
+    if abs(got[0] - mean) > t or abs(got[1] - var) > t:
+        return "quad_expectation(%d, %s) = (%.9g, %.9g) but the moments of the state's own marginal() are (%.9g, %.9g)" % (c["mode"], c["phi"], got[0], got[1], mean, var)
+    return None
+
+
 def correspondence(ctx):
     corr_gauss(ctx)
     corr_fock(ctx)
     corr_axes(ctx)
     corr_pp(ctx)
+    corr_bosonic_quad(ctx)
 
 
 def search(ctx):
     replay_corpus(ctx)
     search_gauss_family(ctx)
     search_fock_family(ctx)
+    search_bosonic_family(ctx)
 
 
 def replay(ctx, data):
